@@ -81,10 +81,14 @@ def faults(r, nl):
         n = r.randint(2, 5)
         bad = r.randrange(n)
         body = ["v%d = %d" % (i, i) for i in range(n)]
+        if r.random() < 0.5:
+            body[0] = "q=1"  # a short first statement
         body[bad] = "v%d = = %d" % (bad, bad)
         lead = r.choice([0, 1, 2])
         margin = r.choice(["", "    ", "\t"]) if lead else ""  # code starting on the tag line fixes the margin at 0
-        text = opener + nl * lead + (" " if lead == 0 else "") + nl.join((margin if (lead or i) else "") + b for i, b in enumerate(body)) + nl + "%>"
+        # the closing %> may stand on an indented line of its own, after blank lines
+        tail = nl * r.choice([1, 1, 2, 4]) + r.choice(["", "", "    ", "\t\t            "])
+        text = opener + nl * lead + (" " if lead == 0 else "") + nl.join((margin if (lead or i) else "") + b for i, b in enumerate(body)) + tail + "%>"
         add(name, text, "Syntax", off=lead + bad, py=True)
     add("def-signature", '<%def name="f(a,,)">x</%def>', "Either", py=True)
     add("page-args", '<%page args="a,,"/>', "Either", py=True)
